@@ -35,9 +35,9 @@ class IntegratorPoints(Points):
     def __init__(self, object_type: ObjectType, **kwargs):
         super().__init__(object_type, **kwargs)
 
-        if self.entity_type.name != "Geoscience INTEGRATOR Points":
+        if self.entity_type.name in ("Entity", type(self).__name__):
             self.entity_type.name = "Geoscience INTEGRATOR Points"
-        if self.entity_type.description != "Geoscience INTEGRATOR Points":
+        if self.entity_type.description in ("Entity", None):
             self.entity_type.description = "Geoscience INTEGRATOR Points"
 
     @classmethod
@@ -55,9 +55,9 @@ class NeighbourhoodSurface(Surface):
     def __init__(self, object_type: ObjectType, **kwargs):
         super().__init__(object_type, **kwargs)
 
-        if self.entity_type.name != "Neighbourhood Surface":
+        if self.entity_type.name in ("Entity", type(self).__name__):
             self.entity_type.name = "Neighbourhood Surface"
-        if self.entity_type.description != "Neighbourhood Surface":
+        if self.entity_type.description in ("Entity", None):
             self.entity_type.description = "Neighbourhood Surface"
 
     @classmethod
